@@ -124,6 +124,25 @@ def a1(ctx: Ctx):
                     fv = x.fields.get(f)
                     if fv is None:
                         continue
+                    # ... and no element of a list field is None: the class calls .visit / .basic09_text on each element
+                    for y in _shallow(fv):
+                        if isinstance(y, Seq):
+                            elems = list(y.items) + ([y.tail] if y.tail is not None else [])
+
+                            def _alts2(e_, depth=0):
+                                # an element that is the value of a child rule: what that rule's visitor can return
+                                for z in alts_of(e_):
+                                    if isinstance(z, Operand) and getattr(z, "rule", None) in vals and depth < 3:
+                                        not_none = z.only is not None and "const:NoneType" not in z.only
+                                        for w in _alts2(vals[z.rule], depth + 1):
+                                            if not (not_none and isinstance(w, Const) and w.value is None):
+                                                yield w
+                                    else:
+                                        yield z
+
+                            if any(isinstance(z, Const) and z.value is None for e_ in elems for z in _alts2(e_)):
+                                problems.append((f"none-in-list:{x.cls}.{f}", f"the list stored in `{x.cls}.{f}` can contain None (an element the builder did not filter out): the class calls a method on every element - AttributeError: 'NoneType' object has no attribute 'visit'", x.line, site_name(ctx, x)))
+                                break
                     for y in _shallow(fv):
                         if isinstance(y, NodeV):
                             problems.append((f"node-leak:{x.cls}.{f}", f"a raw parse node ({y.desc}) is stored in `{x.cls}.{f}`, which is printed / visited as a construct: AttributeError on `.basic09_text` / `.visit`", x.line, site_name(ctx, x)))
@@ -575,7 +594,8 @@ def l1(ctx: Ctx):
             rt = "str" if isinstance(res, Const) and res.value else "num" if isinstance(res, Const) else "unknown"
             if not lib_type_ok(rt, pt):
                 bad.append(f"the result temporary is {'a string' if rt == 'str' else 'numeric'} (is_str_expr={res.value if isinstance(res, Const) else '?'}), result parameter `{pn}` is {raw}")
-        ctx.ob(key, not bad, "; ".join(bad), file=s["file"], line=s["line"], facts={"args": [_brief(a) for a in args], "params": [p[0] + ":" + p[2] for p in params]}, props=["C14"])
+        # (a device function - INKEY$, BUTTON, JOYSTK, POINT - whose call does not fit its procedure does not reach the device: C04)
+        ctx.ob(key, not bad, "; ".join(bad), file=s["file"], line=s["line"], facts={"args": [_brief(a) for a in args], "params": [p[0] + ":" + p[2] for p in params]}, props=["C14", "C04"] if name in ("inkey", "ecb_button", "ecb_joystk", "ecb_point") else ["C14"])
     # calls written inside emission templates
     seen_t: Set[Tuple[str, str, int, Tuple[str, ...]]] = set()
     for t in template_calls(ctx):
@@ -599,6 +619,15 @@ def l1(ctx: Ctx):
             for ty in sorted(ts):
                 if not lib_type_ok(ty, pt):
                     bad.append(f"argument {i + 1} (`{a if isinstance(a, str) else _brief(a)}`) is {ty}, parameter `{pn}` is {raw}")
+            # an argument the template converts on purpose - FIX(..) is an INTEGER, float(..) a REAL - meets a parameter of that
+            # kind: BASIC09 hands the value over by reference, without conversion
+            if isinstance(a, str) and pt == "num":
+                fine = "integer" if re.match(r"(?i)\s*fix\(", a) else "real" if re.match(r"(?i)\s*float\(", a) else None
+                rawl = raw.strip().lower()
+                if fine == "integer" and rawl == "real":
+                    bad.append(f"argument {i + 1} (`{a}`) is an INTEGER, parameter `{pn}` is declared {raw}: the two bytes are read as a REAL")
+                if fine == "real" and rawl in ("integer", "byte"):
+                    bad.append(f"argument {i + 1} (`{a}`) is a REAL, parameter `{pn}` is declared {raw}")
         ctx.ob(key + f"#{len(t['args'])}", not bad, "; ".join(bad), file=t["file"], line=t["line"], props=["C14"])
     ctx.units["run_sites"] = n_sites
 
